@@ -534,6 +534,90 @@ def corruption_controls(ctx):
     ctx.traces_validated -= 2 + len(mcases) + len(ncases)      # controls are not evidence about the code
 
 
+# ---------------------------------------------------------------------------------------------
+# clause e: moments of standard targets (long seeded runs, batch-means standard errors)
+# ---------------------------------------------------------------------------------------------
+def std_target(name):
+    """(log density, gradient, start, statistics [(name, f(chain) -> per-state values, exact value)], metropolis sigma)"""
+    import scipy.stats as ss
+    if name == "box2":          # uniform on the unit square: hard support boundaries
+        logp = lambda x: 0.0 if np.all((np.asarray(x) >= 0) & (np.asarray(x) <= 1)) else -np.inf     # noqa: E731
+        grad = lambda x: np.zeros(2)                                                                     # noqa: E731
+        st = [("E[x%d]" % i, (lambda c, i=i: c[:, i]), 0.5) for i in range(2)] + [("E[x%d^2]" % i, (lambda c, i=i: c[:, i] ** 2), 1 / 3.) for i in range(2)]
+        return logp, grad, np.array([0.5, 0.5]), st, 0.5
+    if name == "tnorm":         # standard normal truncated to [-1, 1.5]
+        logp = lambda x: float(-0.5 * np.sum(np.asarray(x) ** 2)) if np.all((np.asarray(x) >= -1) & (np.asarray(x) <= 1.5)) else -np.inf   # noqa: E731
+        grad = lambda x: -np.asarray(x, dtype=float)                                                                                    # noqa: E731
+        d = ss.truncnorm(-1, 1.5)
+        st = [("E[x]", lambda c: c[:, 0], float(d.moment(1))), ("E[x^2]", lambda c: c[:, 0] ** 2, float(d.moment(2)))]
+        return logp, grad, np.array([0.2]), st, 1.0
+    if name == "corr2":         # correlated Gaussian, rho = 0.9
+        rho = 0.9
+        P = np.linalg.inv(np.array([[1, rho], [rho, 1.0]]))
+        logp = lambda x: float(-0.5 * np.asarray(x) @ P @ np.asarray(x))      # noqa: E731
+        grad = lambda x: -(P @ np.asarray(x, dtype=float))                    # noqa: E731
+        st = [("E[x0]", lambda c: c[:, 0], 0.0), ("E[x1]", lambda c: c[:, 1], 0.0), ("E[x0^2]", lambda c: c[:, 0] ** 2, 1.0),
+              ("E[x1^2]", lambda c: c[:, 1] ** 2, 1.0), ("E[x0 x1]", lambda c: c[:, 0] * c[:, 1], rho)]
+        return logp, grad, np.array([0.1, -0.1]), st, 0.7
+    mu, sd = np.array([1.0, -2.0, 0.5]), np.array([1.0, 2.0, 0.5])      # gauss3: independent normals
+    logp = lambda x: float(-0.5 * np.sum(((np.asarray(x) - mu) / sd) ** 2))      # noqa: E731
+    grad = lambda x: -(np.asarray(x, dtype=float) - mu) / sd ** 2                # noqa: E731
+    st = [("E[x%d]" % i, (lambda c, i=i: c[:, i]), float(mu[i])) for i in range(3)] + \
+         [("E[x%d^2]" % i, (lambda c, i=i: c[:, i] ** 2), float(mu[i] ** 2 + sd[i] ** 2)) for i in range(3)]
+    return logp, grad, mu.copy(), st, [1.0, 2.0, 0.5]
+
+
+def record_moments(sc):
+    from elfi.methods import mcmc
+    logp, grad, x0, stats, sigma = std_target(sc["target"])
+    tr = dict(kernel=sc["kernel"], target=sc["target"], n=sc["n"], seed=sc["seed"], res="ok", nonfinite=False, stats=[])
+    try:
+        with warnings.catch_warnings(), np.errstate(all="ignore"), time_limit(600):
+            warnings.simplefilter("ignore")
+            if sc["kernel"] == "nuts":
+                chain = mcmc.nuts(sc["n"] + sc["warm"], x0, logp, grad, n_adapt=sc["warm"], seed=sc["seed"], info_freq=10 ** 9)
+                chain = np.asarray(chain, dtype=float)[sc["warm"]:]
+            else:
+                chain = np.asarray(mcmc.metropolis(sc["n"], x0, logp, np.array(sigma, dtype=float) * np.ones(len(x0)), warmup=sc["warm"], seed=sc["seed"]), dtype=float)
+        if chain.shape != (sc["n"], len(x0)):
+            tr["res"] = "shape %s" % (chain.shape,)
+            return tr
+        tr["nonfinite"] = bool(not np.all(np.isfinite(chain)))
+        B = 20
+        m = sc["n"] // B
+        for name, f, exact in stats:
+            v = np.asarray(f(chain), dtype=float)[:B * m].reshape(B, m).mean(axis=1)
+            tr["stats"].append(dict(name=name, est=int(round(float(v.mean()) * 1e6)), exact=int(round(exact * 1e6)),
+                                    se=int(round(float(v.std(ddof=1) / np.sqrt(B)) * 1e6))))
+    except Hang:
+        tr["res"] = "hang"
+    except BaseException as ex:
+        if isinstance(ex, KeyboardInterrupt):
+            raise
+        tr["res"] = "raise:" + type(ex).__name__
+    return tr
+
+
+def check_moments(ctx):
+    rnd = random.Random(ctx.seed + 404)
+    scs = []
+    for target in ("box2", "tnorm", "corr2", "gauss3"):
+        cheap = target in ("box2", "tnorm")       # hard boundaries: where a wrong tree rule biases most; cheap targets, long runs
+        n_nuts = (40000 if cheap else 8000) if ctx.quick else (160000 if cheap else 40000)
+        scs.append(dict(kernel="nuts", target=target, n=n_nuts, warm=1000, seed=rnd.randint(0, 2 ** 31 - 1)))
+        scs.append(dict(kernel="metropolis", target=target, n=60000 if ctx.quick else 300000, warm=2000, seed=rnd.randint(0, 2 ** 31 - 1)))
+    traces = [record_moments(sc) for sc in scs]
+    vs = ctx.validate("Moments_Trace", traces, chunk=50, name="moments")
+    worst = 0.0
+    for sc, tr, v in zip(scs, traces, vs):
+        ctx.case(("moments", sc["kernel"], sc["target"], sc["seed"]), nontrivial=True)
+        for s in tr["stats"]:
+            worst = max(worst, abs(s["est"] - s["exact"]) / float(6 * s["se"] + 2000))
+        if v["verdict"] != "ok":
+            ctx.fail(v["verdict"], sc, detail=dict(res=tr["res"], stats=tr["stats"]))
+    ctx.notes.append("moments: %d long runs, largest |average - exact| / tolerance = %.2f" % (len(scs), worst))
+
+
 M_INV = ["OutputsFinite", "CurrentFinite", "LengthExact", "ChainIsRandomWalk", "AcceptIff", "OutputIsChainTail", "RuleMatchesStatement"]
 
 
@@ -556,8 +640,12 @@ def run(ctx):
         "c: deterministic in the seed, independent of the global generator (P:pure: two calls, equal digests of outputs and target arguments)",
         "d: no returned state with log-target -inf / NaN from a valid start (P:finite-output), both kernels; design-level argument for "
         "NUTS: NutsTree!SelectedIsInSliceLeafOrPrevious for all leaf outcomes up to depth 3, bound by M:run-is-a-NutsTree-behaviour"]
+    ctx.clauses_decided.append(
+        "e: moments of four standard targets (uniform square with hard boundaries, truncated normal, correlated Gaussian rho=0.9, independent "
+        "normals) reproduced by long seeded runs of both kernels within 6 batch-means standard errors + 0.002 (P:reproduces-the-moments-of-a-"
+        "standard-target; a statistical relation judged by TLC on logged oracle fields, false-alarm probability < 1e-5 per statistic)")
     ctx.clauses_not_decided = [
-        "e: 'on standard targets reproduce the target's moments' is statistical - not decidable by a state-space method",
+        "e beyond the four targets / for biases smaller than the tolerance of the run length (statistical clause: no state-space argument)",
         "a for NUTS: the statement fixes no per-move rule for NUTS; leapfrog arithmetic, U-turn tests and step-size adaptation are "
         "abstracted (free booleans) and only bound as M: clauses",
         "exact ties ratio == u (probability ~2^-53) are accepted both ways"]
@@ -587,10 +675,18 @@ def run(ctx):
     if not ctx.violations:
         corruption_controls(ctx)
     check_scenarios(ctx, [dict(sc) for sc in PINNED])
+    check_moments(ctx)
     ctx.exhaustive = True
     ctx.notes.append("metropolis: %d small-domain + %d random chains; nuts: %d small-domain + %d random runs; %d pinned (F12, F28)"
                      % (m_small, len(mscs) - m_small, n_small, len(nscs) - n_small, len(PINNED)))
 
 
 def replay(ctx, scenario):
+    if "target" in scenario:        # a long moments run
+        tr = record_moments(scenario)
+        v = ctx.validate("Moments_Trace", [tr], name="moments")[0]
+        ctx.case(("moments", scenario["kernel"], scenario["target"], scenario["seed"]), nontrivial=True)
+        if v["verdict"] != "ok":
+            ctx.fail(v["verdict"], scenario, detail=dict(res=tr["res"], stats=tr["stats"]))
+        return
     check_scenarios(ctx, [scenario])
